@@ -11,6 +11,18 @@ def e2_run(prop, kernels, tier, seed, cfgs=("sse2", "scalar"), cap=None):
     for cfg in cfgs:
         try:
             rs = e2run.run(prop.lower(), cfg, kernels, seed=seed, cap=cap)
+            # z3's nlsat is sensitive to machine load: kernels that came back `unknown` are re-decided with 4 workers and a 4x cap before being reported inconclusive
+            redo = [r["kernel"] for r in rs if r["status"] == "inconclusive" and "z3 unknown" in r.get("detail", "")]
+            if redo:
+                import copy
+                ks2 = []
+                for k in kernels:
+                    if k.name in redo:
+                        k2 = copy.copy(k)
+                        k2.timeout = (k.timeout or cap) * 4
+                        ks2.append(k2)
+                rs2 = {r["kernel"]: r for r in e2run.run(prop.lower(), cfg, ks2, seed=seed, cap=cap * 4, jobs=4)}
+                rs = [rs2.get(r["kernel"], r) if r["kernel"] in redo else r for r in rs]
         except Exception as e:
             out.append(dict(site=f"e2-build-{cfg}", status="broken", detail=str(e)[:800], cfg=cfg, secs=0))
             continue
